@@ -491,6 +491,14 @@ func (ssc *StatefulSetController) sync(key string) error {
 		return nil
 	}
 
+	// The shipped CRD schema admits an object without any spec (and then applies no defaults to it):
+	// such an object cannot be reconciled and must not take the worker down.
+	if set.Spec.Replicas == nil || set.Spec.RevisionHistoryLimit == nil || set.Spec.Selector == nil {
+		utilruntime.HandleError(fmt.Errorf("StatefulSet %v has no replicas, revisionHistoryLimit or selector (no spec?), skipping", key))
+		// This is a non-transient error, so don't retry.
+		return nil
+	}
+
 	selector, err := metav1.LabelSelectorAsSelector(set.Spec.Selector)
 	if err != nil {
 		utilruntime.HandleError(fmt.Errorf("error converting StatefulSet %v selector: %v", key, err))
